@@ -68,7 +68,7 @@ META["C13"] = {
     "level": "exploration",
     "tiers": {
         "quick": {"shards": 3, "deadline_s": 200,
-                  "bounds": "all sequences of 0..3 results over (calls,E,S) in {2,10,1000}x{-3,-1e-3,0,1/2,1,1e6}x{1e-6,1e-3,0.1,1,10,1e3} plus the empty result, results with exactly one non-zero call, with 3e9 calls (counter sums beyond 2^32) and with fewer finite than non-zero calls (float: |E|<=1e3, S>=1e-3); all sequences of length 4 over the reduced alphabet {2,1000}x{-3,0,1,1e3}x{1e-3,1,1e3}+empty; every sequence also against its sorted permutation; 0..2 distributions (one 1-d with 2 bins, one 2-d with 2x2 bins); 3 types"},
+                  "bounds": "all sequences of 0..3 results over (calls,E,S) in {2,10,1000}x{-3,-1e-3,0,1/2,1,1e6}x{1e-6,1e-3,0.1,1,10,1e3} plus two empty results (10 calls without a hit, and zero calls), results with exactly one non-zero call, with 3e9 calls (counter sums beyond 2^32) and with fewer finite than non-zero calls (float: |E|<=1e3, S>=1e-3); all sequences of length 4 over the reduced alphabet {2,1000}x{-3,0,1,1e3}x{1e-3,1,1e3}+empty; every sequence also against its sorted permutation; 0..2 distributions (one 1-d with 2 bins, one 2-d with 2x2 bins); 3 types"},
         "thorough": {"shards": 3, "deadline_s": 1500,
                      "bounds": "as quick plus length 5 over the reduced alphabet and length 4 over a medium alphabet (41 results)"},
     },
@@ -83,7 +83,7 @@ META["C14"] = {
     "level": "exploration",
     "tiers": {
         "quick": {"shards": 3, "deadline_s": 200,
-                  "bounds": "all sequences of length 1..7 over {+-1, +-h, +-2^12} (h = 2^-p (1+2^-10)); block sequences prefix (length <= 2) + k copies, k = 10..10^5 (10^4 for prefixes of length 2); eleven named families (two of them scaled to the bottom of the exponent range) with N = 1..10^5; integral with/without distributions, a single-bin distribution and two multi-bin distributions (3 and 2 bins fed interleaved subsequences); 3 types"},
+                  "bounds": "all sequences of length 1..7 over {+-1, +-h, +-2^12} (h = 2^-p (1+2^-10)); block sequences prefix (length <= 2) + k copies, k = 10..10^5 (10^4 for prefixes of length 2); twelve named families (two of them scaled to the bottom of the exponent range, one with a few values whose squares overflow) with N = 1..10^5; integral with/without distributions, a single-bin distribution and two multi-bin distributions (3 bins on [0,0.7] and 2 bins, fed interleaved subsequences); 3 types"},
         "thorough": {"shards": 3, "deadline_s": 1500,
                      "bounds": "as quick with sequences up to length 9, prefixes up to length 3 (k up to 10^5 for length 2), k and N up to 10^7"},
     },
@@ -224,7 +224,7 @@ META["C12"] = {
     "parts": 3,
     "tiers": {
         "quick": {"shards": 3, "deadline_s": 300,
-                  "bounds": "A: every calls list of length 0..4 over {2,5,0} x user callback answering false at every position or never x start from an empty or a 2-result checkpoint x serial / MPI shim with 1..3 ranks (a third of the lists); B: built-in callback, 4 modes x targets {0,1e-3,0.05,0.3,1} and +-1% around every relative error the run actually reaches x integrands {0, 1, +-1 alternating, NaN, NaN sometimes, linear, narrow support (iterations without any hit)} x 5 iterations, serial and MPI shim with 2 ranks; PLAIN, VEGAS, MULTI-CHANNEL; 3 types"},
+                  "bounds": "A: every calls list of length 0..4 over {2,5,0} x user callback answering false at every position or never x start from an empty or a 2-result checkpoint x serial / MPI shim with 1..3 ranks (a third of the lists); B: built-in callback, 4 modes x targets {0,1e-3,0.05,0.3,1} and +-1% around every relative error the run actually reaches x integrands {0, 1, +-1 alternating, NaN, NaN sometimes, linear, narrow support (iterations without any hit), linear at a tiny scale} x 5 iterations, serial and MPI shim with 2 ranks; PLAIN, VEGAS, MULTI-CHANNEL; 3 types"},
         "thorough": {"shards": 3, "deadline_s": 900, "bounds": "as quick with calls lists up to length 5 in part A"},
     },
     "rule": "every environment answer sequence of the callback (the position at which it says stop) is enumerated; states = runs judged, transitions = callback invocations judged; distinct_nontrivial = distinct cases with at least two requested iterations (A) plus all built-in cases (B)",
@@ -269,7 +269,7 @@ META["C20"] = {
     "parts": 3,
     "tiers": {
         "quick": {"shards": 3, "deadline_s": 400,
-                  "bounds": "4 callback modes x {PLAIN, VEGAS, MULTI-CHANNEL with 1,2,3,7,12,13,14,30 channels x 4 weight patterns (equal, all but one at the floor, alternating disabled, increasing)} x integrands {0, 1, NaN sometimes, linear} x targets {0, 0.12} x 3 iterations; MPI shim with 3 ranks x 4 modes x targets {0, 0.12}; multi_channel_summary directly for 1..48 channels x weight patterns (equal, one dominant, k disabled, increasing/decreasing, two groups, one huge) x calls {0,1,1000,10^6}; 3 types; ASan+UBSan+_GLIBCXX_ASSERTIONS, 60 s limit per case"},
+                  "bounds": "4 callback modes x {PLAIN, VEGAS, MULTI-CHANNEL with 1,2,3,7,12,13,14,30 channels x 4 weight patterns (equal, all but one at the floor, alternating disabled, increasing)} x integrands {0, 1, NaN sometimes, linear} x targets {0, 0.12} x 3 iterations (also with a zero-call iteration); MPI shim with 3 ranks x 4 modes x targets {0, 0.12}; multi_channel_summary directly for 1..48 channels x weight patterns (equal, one dominant, k disabled, increasing/decreasing, two groups, one huge) x calls {0,1,1000,10^6}; 3 types; ASan+UBSan+_GLIBCXX_ASSERTIONS, 60 s limit per case"},
         "thorough": {"shards": 3, "deadline_s": 900, "bounds": "same as quick (the enumeration is complete at this bound)"},
     },
     "rule": "full product of configurations; each configuration is run once per mode and the modes are compared with the silent run (final text and the text handed to every callback invocation); distinct = distinct configurations; non-trivial = every configuration",
@@ -300,7 +300,7 @@ META["C18"] = {
     "level": "fault_enumeration",
     "tiers": {
         "quick": {"shards": 3, "deadline_s": 400,
-                  "bounds": "PLAIN (about 300 byte checkpoints), VEGAS 128 bins x 4 dimensions (about 13 kB per result, several write calls per checkpoint), MULTI-CHANNEL 30 channels; 3 iterations; silent_and_write_chkpt and verbose_and_write_chkpt; file absent or holding an older (empty) checkpoint, with and without a partial temporary file left behind by an earlier killed run, and with the first or second rename of the run failing (injected ENAMETOOLONG); every position in the operation log and every byte prefix of every write; real-kill validation at every log position with byte prefixes {0, 1, middle, last}; 3 types"},
+                  "bounds": "PLAIN (about 300 byte checkpoints), VEGAS 128 bins x 4 dimensions (about 13 kB per result, several write calls per checkpoint), MULTI-CHANNEL 30 channels; 3 iterations; silent_and_write_chkpt and verbose_and_write_chkpt; file absent or holding an older (empty) checkpoint, with and without a partial temporary file left behind by an earlier killed run, with the first or second rename of the run failing (injected ENAMETOOLONG), with the callback instantiated for the checkpoint's base type, and with a checkpoint file named 'run.tmp'; every position in the operation log and every byte prefix of every write; real-kill validation at every log position with byte prefixes {0, 1, middle, last}; 3 types"},
         "thorough": {"shards": 3, "deadline_s": 1800, "bounds": "as quick with real-kill validation at every 97th byte of every write"},
     },
     "rule": "fault enumeration over crash points: (operation index, bytes of the write in flight); byte prefixes of a write to a file other than the checkpoint file leave the checkpoint file unchanged and are counted once per operation; distinct = distinct crash points whose checkpoint-file content was judged; non-trivial = every crash point",
